@@ -286,7 +286,7 @@ func runC07(c *eng.Ctx, thorough bool) {
 		// or across the exit of the loop that tests every element against it (for
 		// the allowed lists also: the role's own allowed list was adopted).
 		c.Clause("R2", "C07.5")
-		isFinal := func(v ssa.Value) bool { p, ok := v.(*ssa.Phi); return ok && p.Comment == "finalPolicies" }
+		isFinal := func(v ssa.Value) bool { p, ok := v.(*ssa.Phi); return ok && eng.VarName(p) == "finalPolicies" }
 		handOver := eng.PhiEdges(f, "policies", isFinal)
 		if c.Floor(f, "role arm hand-over (policies = finalPolicies)", len(handOver), 1) {
 			// the true edges of the membership tests whose haystack (first argument) is built from the role's list
